@@ -22,13 +22,34 @@ type SeqCase struct {
 	Calls  []int `json:"calls"`
 }
 
-var seqConfigNames = []string{"text", "pretty", "binary", "binary-fixed-lst"}
+var seqConfigNames = []string{"text", "pretty", "binary", "binary-fixed-lst", "text-quiet-finish", "pretty-quiet-finish"}
+
+const nSeqConfigs = 6
+
+func cfgBinary(cfg int) bool { return cfg == 2 || cfg == 3 }
 
 type wcall struct {
 	name string
 	do   func(w ion.Writer) error
 	kind int // 0 value, 1 begin, 2 end, 3 fieldname, 4 annotation, 5 finish
 	arg  interface{}
+}
+
+// bufCalls are used instead of do for the calls named: the call takes its argument out of a buffer
+// that belongs to the run (adjacent sub-slices with spare capacity, the way a caller chunks a larger buffer).
+var bufCalls = map[string]func(w ion.Writer, buf []byte) error{
+	"WriteBlob(buf[0:100])":   func(w ion.Writer, b []byte) error { return w.WriteBlob(b[0:100]) },
+	"WriteBlob(buf[100:200])": func(w ion.Writer, b []byte) error { return w.WriteBlob(b[100:200]) },
+	"WriteClob(buf[200:300])": func(w ion.Writer, b []byte) error { return w.WriteClob(b[200:300]) },
+}
+
+// seqLobPattern is the content of that buffer.
+func seqLobPattern() []byte {
+	b := make([]byte, 400)
+	for i := range b {
+		b[i] = byte(i*7 + 1)
+	}
+	return b
 }
 
 const (
@@ -79,6 +100,9 @@ var writerCalls = []wcall{
 	{"Annotation(invalid token)", func(w ion.Writer) error { return w.Annotation(ion.SymbolToken{LocalSID: ion.SymbolIDUnknown}) }, ckAnnot, []string{"!invalid"}},
 	{"WriteClob", func(w ion.Writer) error { return w.WriteClob([]byte("c\"}\x00")) }, ckValue, model.ClobV([]byte("c\"}\x00"))},
 	{"WriteBlob", func(w ion.Writer) error { return w.WriteBlob([]byte{0, 1, 2, 255}) }, ckValue, model.BlobV([]byte{0, 1, 2, 255})},
+	{"WriteBlob(buf[0:100])", nil, ckValue, model.BlobV(seqLobPattern()[0:100])},
+	{"WriteBlob(buf[100:200])", nil, ckValue, model.BlobV(seqLobPattern()[100:200])},
+	{"WriteClob(buf[200:300])", nil, ckValue, model.ClobV(seqLobPattern()[200:300])},
 }
 
 const reducedAlphabet = 12
@@ -91,6 +115,10 @@ func newSeqWriter(config int, out *bytes.Buffer) ion.Writer {
 		return ion.NewTextWriterOpts(out, ion.TextWriterPretty)
 	case 2:
 		return ion.NewBinaryWriter(out)
+	case 4:
+		return ion.NewTextWriterOpts(out, ion.TextWriterQuietFinish)
+	case 5:
+		return ion.NewTextWriterOpts(out, ion.TextWriterPretty|ion.TextWriterQuietFinish)
 	default:
 		return ion.NewBinaryWriterLST(out, ion.NewLocalSymbolTable(nil, fixedTexts))
 	}
@@ -213,6 +241,7 @@ func runSeq(k SeqCase) (o seqOutcome) {
 	w := newSeqWriter(k.Config, &buf)
 	sh := &shadow{}
 	calls := append(append([]int{}, k.Calls...), 10) // final Finish
+	lobBuf := seqLobPattern()
 	for i, ci := range calls {
 		c := writerCalls[ci]
 		var err error
@@ -223,7 +252,11 @@ func runSeq(k SeqCase) (o seqOutcome) {
 					pan = ionx.PanicSite(rec)
 				}
 			}()
-			err = c.do(w)
+			if f, ok := bufCalls[c.name]; ok {
+				err = f(w, lobBuf)
+			} else {
+				err = c.do(w)
+			}
 		}()
 		if pan != "" {
 			o.verdict = fmt.Sprintf("call %d %s panicked: %s", i, c.name, pan)
@@ -266,7 +299,7 @@ func runSeq(k SeqCase) (o seqOutcome) {
 	// the final Finish returned nil: the output must be a valid stream of exactly the successful values
 	var got []*model.Value
 	var err error
-	if k.Config >= 2 {
+	if cfgBinary(k.Config) {
 		if len(o.out) == 0 && len(sh.all) == 0 {
 			return
 		}
@@ -339,7 +372,7 @@ func seqCheck(c *Ctx, k SeqCase) {
 	if j := strings.Index(cls, "(depth"); j > 0 {
 		cls = cls[:j]
 	}
-	c.Violate("call-sequence", seqConfigNames[k.Config]+":"+Class(cls), fmt.Sprintf("config=%s calls=[%s ; Finish] output=%s :: %s", seqConfigNames[k.Config], seqNames(k.Calls), showInput(k.Config >= 2, o1.out), verdict), k, nil)
+	c.Violate("call-sequence", seqConfigNames[k.Config]+":"+Class(cls), fmt.Sprintf("config=%s calls=[%s ; Finish] output=%s :: %s", seqConfigNames[k.Config], seqNames(k.Calls), showInput(cfgBinary(k.Config), o1.out), verdict), k, nil)
 }
 
 func runC12(c *Ctx) {
@@ -366,7 +399,7 @@ func runC12(c *Ctx) {
 			calls[i] = idx % reducedAlphabet
 			idx /= reducedAlphabet
 		}
-		for cfg := 0; cfg < 4; cfg++ {
+		for cfg := 0; cfg < nSeqConfigs; cfg++ {
 			seqCheck(c, SeqCase{Config: cfg, Calls: calls})
 		}
 	})
@@ -376,7 +409,7 @@ func runC12(c *Ctx) {
 	nr := c.N(20000, 300000)
 	c.Parallel(nr, func(w, i int) {
 		r := rand.New(rand.NewSource(c.Seed*12_000_017 + int64(i)))
-		cfg := i % 4
+		cfg := i % nSeqConfigs
 		n := 3 + r.Intn(58)
 		sh := &shadow{}
 		var calls []int
@@ -446,7 +479,7 @@ func runC12(c *Ctx) {
 			calls = append(calls, []int{iEndList, iEndStruct, iEndSexp}[kinds[lvl]])
 		}
 		calls = append(calls, iInt)
-		for cfg := 0; cfg < 4; cfg++ {
+		for cfg := 0; cfg < nSeqConfigs; cfg++ {
 			seqCheck(c, SeqCase{Config: cfg, Calls: calls})
 		}
 		c.Obs("deep_nesting_sequences", 4)
